@@ -123,6 +123,7 @@ package server
 
 //@ func (*server.PauseController).Stop
 //@ may_emit Close
+//@ emits SetStopped(p, message)
 //@ assigns p.State, p.StopMessage, closed(p.pauseChannel)
 //@ ensures[C08] stopped: err == nil && p.State == PauseStateStopped && p.StopMessage == message
 //@ ensures[C07] releases_waiters: old(p.State) == PauseStatePaused ==> closed(p.pauseChannel)
@@ -134,6 +135,7 @@ package server
 //@ ensures[C07] releases_waiters: old(p.State) == PauseStatePaused ==> closed(p.pauseChannel)
 
 //@ func (*server.PauseController).Pause
+//@ emits SetPaused(p, failAfter)
 //@ assigns p.State, p.StopMessage, p.FailAfter, p.pauseChannel
 //@ ensures[C07] paused: err == nil && p.State == PauseStatePaused && p.StopMessage == "" && p.FailAfter == failAfter
 //@ ensures[C07] new_channel_on_change: old(p.State) != PauseStatePaused ==> fresh(p.pauseChannel) && !closed(p.pauseChannel)
@@ -432,6 +434,7 @@ package server
 //@ may_emit StopProbes, Cancel
 //@ assigns Target.healthcheck, cancelled, closed
 //@ ensures[C06,C17] all_probes_stopped: forall i int :: 0 <= i && i < len(lb.all) ==> probesStopped(lb.all[i])
+//@ ensures dropped_or_kept: forall t *Target :: t.healthcheck == nil || t.healthcheck == old(t.healthcheck)
 //@ ensures[C18] lock_free: !held(lb.lock)
 //@ emits Dispose(lb)
 
@@ -535,3 +538,109 @@ package server
 //@ ensures[C06] malformed_targets_create_nothing: none(NewLB) ==> err != nil && none(UpdateLB) && none(Install) && none(NewHealthCheck) && now == old(now)
 //@ ensures[C17] bounded_by_deploy_plus_drain_timeout: now <= old(now) + max(deployTimeout, 0) + max(drainTimeout, 0)
 //@ ensures[C01,C17] deploy_timeout_used_for_the_wait: all(WaitHealthy, $1 == deployTimeout)
+
+//@ func (*server.Service).createCertManager
+//@ assigns nothing
+//@ may_emit LoadCert
+//@ ensures[C16] no_tls_no_manager: !options.TLSEnabled ==> isnil(result0) && err == nil
+//@ ensures[C16] static_pair: options.TLSEnabled && options.TLSCertificatePath != "" && options.TLSPrivateKeyPath != "" ==> (err == nil ==> typeis(result0, `*StaticCertManager`)) && (err != nil ==> err == ErrorUnableToLoadCertificate)
+//@ ensures[C16] wildcards_refused: options.TLSEnabled && !(options.TLSCertificatePath != "" && options.TLSPrivateKeyPath != "") && (exists i int :: 0 <= i && i < len(options.Hosts) && strings.Contains(options.Hosts[i], "*")) ==> err == ErrorAutomaticTLSDoesNotSupportWildcards && isnil(result0)
+//@ ensures[C16] automatic_only_for_bound_hosts: options.TLSEnabled && !(options.TLSCertificatePath != "" && options.TLSPrivateKeyPath != "") && err == nil ==> typeis(result0, `*golang.org/x/crypto/acme/autocert.Manager`) && whitelistOf(as(payload(result0), `*golang.org/x/crypto/acme/autocert.Manager`).HostPolicy) == ref(options.Hosts) && whitelistLen(as(payload(result0), `*golang.org/x/crypto/acme/autocert.Manager`).HostPolicy) == len(options.Hosts)
+//@ ensures[C16] enabled_and_ok_gives_manager: options.TLSEnabled && err == nil ==> !isnil(result0)
+//@ loop 1 invariant no_wildcard_so_far: forall i int :: 0 <= i && i < idx ==> !strings.Contains(coll[i], "*")
+//@ loop 1 invariant same: coll == options.Hosts && idx <= len(coll)
+
+//@ func (*server.Service).initialize
+//@ assigns s.certManager, s.middleware
+//@ may_emit LoadCert, ParseTemplates
+//@ ensures[C16,C06] cert_manager_matches_tls: err == nil ==> (!isnil(s.certManager)) == s.options.TLSEnabled && !isnil(s.middleware)
+//@ ensures[C06] failure_changes_nothing: err != nil ==> s.certManager == old(s.certManager) && s.middleware == old(s.middleware)
+
+//@ func iface server.CertManager.HTTPHandler
+//@ params recv, handler
+//@ assigns nothing
+//@ ensures !isnil(result)
+
+//@ func iface server.CertManager.GetCertificate
+//@ params recv, hello
+//@ assigns nothing
+//@ emits ManagerGetCertificate(recv, hello)
+
+//@ func server.NewService
+//@ attr returns_fresh
+//@ assigns nothing
+//@ may_emit LoadCert, ParseTemplates
+//@ ensures[C06] validation_failure_returns_error: err != nil ==> none(NewLB) && none(NewHealthCheck)
+//@ ensures[C06,C11] built: err == nil ==> result0 != nil && fresh(result0) && result0.name == name && result0.active == nil && result0.rollout == nil && result0.rolloutController == nil && result0.pauseController != nil && fresh(result0.pauseController) && pauseInv(result0.pauseController) && result0.pauseController.State == PauseStateRunning && result0.targetOptions == targetOptions
+//@ ensures[C04] normalised_bindings: err == nil ==> len(result0.options.Hosts) > 0 && len(result0.options.PathPrefixes) > 0
+//@ ensures[C16] cert_manager_matches_tls: err == nil ==> (!isnil(result0.certManager)) == result0.options.TLSEnabled && !isnil(result0.middleware) && result0.options.TLSEnabled == options.TLSEnabled && result0.options.TLSRedirect == options.TLSRedirect && result0.options.StripPrefix == options.StripPrefix
+
+//@ func (*server.Service).CopyWithOptions
+//@ assigns nothing
+//@ may_emit LoadCert, ParseTemplates
+//@ ensures[C06,C07,C08,C10] shares_runtime_state: err == nil ==> result0 != nil && fresh(result0) && result0 != s && result0.name == s.name && result0.active == s.active && result0.rollout == s.rollout && result0.pauseController == s.pauseController && result0.rolloutController == s.rolloutController && result0.targetOptions == targetOptions
+//@ ensures[C16] cert_manager_matches_tls: err == nil ==> (!isnil(result0.certManager)) == result0.options.TLSEnabled && !isnil(result0.middleware)
+
+//@ func (*server.Service).Dispose
+//@ requires s.active != nil
+//@ assigns Target.healthcheck, cancelled, closed
+//@ may_emit StopProbes, Cancel, Dispose
+//@ ensures[C17] both_slots_stopped: (forall i int :: 0 <= i && i < len(s.active.all) ==> probesStopped(s.active.all[i])) && (s.rollout != nil ==> forall i int :: 0 <= i && i < len(s.rollout.all) ==> probesStopped(s.rollout.all[i]))
+//@ emits DisposeService(s)
+
+//@ func (*server.Service).Stop
+//@ requires s.pauseController != nil && s.active != nil
+//@ attr blocks
+//@ assigns *
+//@ may_emit *
+//@ ensures[C08] gate_closed_before_drain: err == nil && first(SetStopped(_, _), DrainService(_, _)) && emitted(SetStopped(s.pauseController, message)) && emitted(DrainService(s, drainTimeout))
+//@ ensures[C17] bounded_by_drain_timeout: now <= old(now) + max(drainTimeout, 0)
+
+//@ func (*server.Service).Pause
+//@ requires s.pauseController != nil && s.active != nil
+//@ attr blocks
+//@ assigns *
+//@ may_emit *
+//@ ensures[C07,C03] gate_closed_before_drain: err == nil && first(SetPaused(_, _), DrainService(_, _)) && emitted(SetPaused(s.pauseController, pauseTimeout)) && emitted(DrainService(s, drainTimeout))
+//@ ensures[C17] bounded_by_drain_timeout: now <= old(now) + max(drainTimeout, 0)
+
+//@ func (*server.Service).Resume
+//@ requires s.pauseController != nil
+//@ assigns s.pauseController.State, s.pauseController.StopMessage, closed(s.pauseController.pauseChannel)
+//@ may_emit Close
+//@ ensures[C07,C08] running_again: err == nil && s.pauseController.State == PauseStateRunning && now == old(now)
+//@ ensures[C07] releases_held_requests: old(s.pauseController.State) == PauseStatePaused ==> closed(s.pauseController.pauseChannel)
+
+//@ func server.NormalizeHosts
+//@ assigns nothing
+//@ ensures[C04] never_empty: len(result) > 0 && (len(hosts) > 0 ==> result == hosts) && (len(hosts) == 0 ==> len(result) == 1 && result[0] == "" && fresh(ref(result)))
+
+//@ func server.NormalizePathPrefixes
+//@ assigns nothing
+//@ ensures[C04] never_empty: len(result) > 0 && (len(pathPrefixes) == 0 ==> len(result) == 1 && result[0] == "/") && (len(pathPrefixes) > 0 ==> len(result) == len(pathPrefixes))
+//@ ensures[C04] normalised: forall i int :: 0 <= i && i < len(result) ==> normPrefix(result[i])
+//@ ensures fresh_list: fresh(ref(result))
+//@ loop 1 invariant[C04] normalised_so_far: len(result) == idx && idx <= len(coll) && coll == pathPrefixes && fresh(ref(result)) && forall i int :: 0 <= i && i < len(result) ==> normPrefix(result[i])
+
+//@ func (*server.Service).Drain
+//@ requires s.active != nil
+//@ attr blocks
+//@ assigns Target.state, everHealthy, cancelled, closed
+//@ may_emit DrainAll, Cancel, DrainTarget
+//@ ensures[C03] both_slots_drained: count(DrainAll(_, timeout)) >= 1 && all(DrainAll, $1 == timeout)
+//@ ensures[C03,C17] bounded_by_drain_timeout: now <= old(now) + max(timeout, 0)
+//@ emits DrainService(s, timeout)
+
+//@ func (*server.ServiceMap).bindingsForHost
+//@ assigns nothing
+//@ ensures[C04] exact_host_first: haskey(m.requestServiceMap, host) ==> result == m.requestServiceMap[host]
+//@ ensures[C04] then_one_level_wildcard: !haskey(m.requestServiceMap, host) && strings.Index(host, ".") > 0 && haskey(m.requestServiceMap, wildcardOf(host)) ==> result == m.requestServiceMap[wildcardOf(host)]
+//@ ensures[C04] then_default: !haskey(m.requestServiceMap, host) && !(strings.Index(host, ".") > 0 && haskey(m.requestServiceMap, wildcardOf(host))) ==> (haskey(m.requestServiceMap, "") ==> result == m.requestServiceMap[""]) && (!haskey(m.requestServiceMap, "") ==> isnil(result))
+
+//@ func (*server.ServiceMap).serviceFor
+//@ requires bindings_wf: forall h string, i int :: haskey(m.requestServiceMap, h) && 0 <= i && i < len(m.requestServiceMap[h]) ==> m.requestServiceMap[h][i] != nil
+//@ assigns nothing
+//@ ensures[C04] first_matching_binding: result0 != nil ==> exists i int :: 0 <= i && i < len(hostBindings(m, host)) && hostBindings(m, host)[i].service == result0 && hostBindings(m, host)[i].pathPrefix == result1 && etsMatch(result1, path) && forall j int :: 0 <= j && j < i ==> !etsMatch(hostBindings(m, host)[j].pathPrefix, path)
+//@ ensures[C04] none_matches: result0 == nil ==> result1 == "" && forall j int :: 0 <= j && j < len(hostBindings(m, host)) ==> !etsMatch(hostBindings(m, host)[j].pathPrefix, path) || hostBindings(m, host)[j].service == nil
+//@ loop 1 invariant[C04] nothing_matched_so_far: forall j int :: 0 <= j && j < idx ==> !etsMatch(coll[j].pathPrefix, path)
+//@ loop 1 invariant same: coll == hostBindings(m, host) && idx <= len(coll)
